@@ -73,6 +73,11 @@ def euler_matrix(phi, theta=None, psi=None):
     cps = np.cos(psi)
     sps = np.sin(psi)
 
+    if ndim == 3:
+        # All entries of the matrix literal need the full broadcast shape
+        cph, sph, cth, sth, cps, sps = np.broadcast_arrays(
+            cph, sph, cth, sth, cps, sps)
+
     if ndim == 2:
         mat = np.array([[cph, -sph],
                         [sph, cph]])
